@@ -15,7 +15,7 @@
 (*   the code      SeqRepl / RenderTemplate / MakeRowTags / StepCode /     *)
 (*                 ScenCode / ExpandCode : behave.model.ScenarioOutline-   *)
 (*                 Builder, one str.replace per column in column order,    *)
-(*                 Tag.make_name on every tag, the annotation schema;      *)
+(*                 Tag.make_name on rendered tags, the annotation schema;       *)
 (*   the cache     InitSt / DoAccess / DoAddRow / DoAddCol :               *)
 (*                 ScenarioOutline.scenarios over _scenarios and the       *)
 (*                 Table.modified flags.                                   *)
@@ -63,12 +63,14 @@ DropToks  == {"/", "+", "#", "@", "!", "%"}
 TagSafe(text) == \A i \in DOMAIN text : text[i] \notin (SpaceToks \cup DropToks)
 MakeName(text) == Flat([i \in DOMAIN text |-> IF text[i] \in DropToks THEN <<>>
                                              ELSE IF text[i] \in SpaceToks THEN <<"_">> ELSE <<text[i]>>])
-\* make_row_tags: render parametrized tags, drop tags that still look parametrized, make_name on all others
+\* make_row_tags: tags without placeholder are kept verbatim; parametrized tags are rendered, dropped if they still
+\* look parametrized, and normalised with make_name otherwise
 RECURSIVE MakeRowTags(_,_,_)
 MakeRowTags(tags, cols, cells) ==
    IF tags = <<>> THEN <<>>
-   ELSE LET t1 == IF HasPh(Head(tags)) THEN RenderTemplate(Head(tags), cols, cells) ELSE Head(tags)
-        IN (IF HasPh(t1) THEN <<>> ELSE <<MakeName(t1)>>) \o MakeRowTags(Tail(tags), cols, cells)
+   ELSE LET t0 == Head(tags)
+            t1 == RenderTemplate(t0, cols, cells)
+        IN (IF ~HasPh(t0) THEN <<t0>> ELSE IF HasPh(t1) THEN <<>> ELSE <<MakeName(t1)>>) \o MakeRowTags(Tail(tags), cols, cells)
 
 \* steps: [name, doc, th, tr]  (doc = <<>>: no doc-string; th = <<>>: no table; tr = rows of cells)
 StepCode(s, cols, cells) ==
